@@ -176,3 +176,42 @@ def cons_zone(o, extra=(), terms=()):
     cc = P.Cons()
     cc.rel = list(o.cons.rel)
     return Zone(cc, extra_rels=extra, extra_terms=terms)
+
+
+UNIT_TRAITS = ("futures_core::Stream", "http_body::Body", "std::io::Write", "std::iter::Iterator", "Entity", "std::ops::Drop",
+               "std::future::Future")
+
+
+def unit_types(ctx):
+    """crate-local types that are analysis units of their own (they implement a stream / body / writer / iterator / entity
+    / destructor trait by hand); every other local type is a helper type whose methods are expanded where they are called"""
+    if hasattr(ctx.facts, "_unit_types"):
+        return ctx.facts._unit_types
+    out = set()
+    for im in ctx.facts.doc["impls"] if hasattr(ctx.facts, "doc") else []:
+        if im.get("trait") in UNIT_TRAITS and im.get("self_adt") and not im.get("span", {}).get("exp"):
+            out.add(im["self_adt"])
+    ctx.facts._unit_types = out
+    return out
+
+
+def helper_inline(ctx, own=(), never=()):
+    """inlining policy used by the unit analyses: expand crate-local callees that are helpers of the unit under analysis -
+    free functions, closures, methods of the unit's own types (`own`: ADT paths) and methods of helper types - so that
+    extracting a helper, or introducing a small private type, does not change what is analysed; methods of *other* unit
+    types stay calls (they have their own rules)"""
+    own = tuple(o.split("<")[0] for o in own)
+    units = unit_types(ctx)
+
+    def pol(c, d):
+        if not c.get("res_local") or c.get("res_path") in never:
+            return False
+        f = ctx.facts.fns.get(c.get("res_path"))
+        if f is None:
+            return True          # closure / coroutine bodies
+        s = f.get("impl_self")
+        if not s:
+            return True
+        base = s.split("<")[0]
+        return base in own or base not in units
+    return pol
